@@ -23,16 +23,16 @@ EXT = {"m3", "m4"}
 
 PALETTES = [
     {"name": "plain", "rx": {"r1": "r1", "r2": "r2", "r3": "r3", "r4": "r4"},
-     "met": {"m1": "m1", "m2": "m2", "m3": "m3", "m4": "m4"},
+     "met": {"m1": "m1", "m2": "m2", "m3": "m3", "m4": "m4", "m5": "m5"},
      "gene": {"g1": "g1", "g2": "g2", "g3": "g3", "g4": "g4"}, "grp": {"grp1": "grp1"},
      "scale": 1.0, "dyadic": True, "sids": True},
     # (non-ASCII letters and digits are identifier characters, too: \u00df, \u00b2, \u03b2, \u00e9, \u00f6)
     {"name": "awkward", "rx": {"r1": "R.1\u00b2", "r2": "a-\u03b2", "r3": "2r", "r4": "p:q"},
-     "met": {"m1": "2x.y", "m2": "M-\u00df", "m3": "glc__D_e", "m4": "u/v"},
+     "met": {"m1": "2x.y", "m2": "M-\u00df", "m3": "glc__D_e", "m4": "u/v", "m5": "5'x"},
      "gene": {"g1": "2x.1", "g2": "b-2", "g3": "for", "g4": "q:\u00e9"}, "grp": {"grp1": "my gr\u00f6up"},
      "scale": 0.5, "dyadic": True},
     {"name": "scaled", "rx": {"r1": "R_PGI", "r2": "ACALD", "r3": "Biomass_Ecoli", "r4": "r_0001"},
-     "met": {"m1": "M_g6p_c", "m2": "f6p_c", "m3": "glc_e", "m4": "x_e"},
+     "met": {"m1": "M_g6p_c", "m2": "f6p_c", "m3": "glc_e", "m4": "x_e", "m5": "M_r5p_c"},
      "gene": {"g1": "b0001", "g2": "G_b2", "g3": "s0001", "g4": "YAL001C"}, "grp": {"grp1": "g_1"},
      "scale": 0.1, "dyadic": False},
 ]
@@ -530,6 +530,8 @@ class ModelDriver:
                 gs = [g.id for g in gs]
             elif form == 2:
                 gs = [model.genes.index(g) for g in gs]
+            if op.get("bad"):
+                gs = list(gs) + ["no_such_gene"]
             res = cobra.manipulation.knock_out_model_genes(model, gs)
             return {"ids": sorted(self.rrx.get(r.id, "?" + r.id) for r in res)}
         if a == "RemoveGenes":
@@ -904,7 +906,7 @@ class ModelDriver:
                     except (TypeError, ValueError):
                         inexact.append("ann:%s:bad" % x)
         attr = {x: {"name": 0, "formula": 0, "charge": 99, "subsys": 0,
-                    "comp": (1 if x in ("m1", "m2") else 2 if x in ("m3", "m4") else 0)}
+                    "comp": (1 if x in ("m1", "m2", "m5") else 2 if x in ("m3", "m4") else 0)}
                 for x in RX + MET + GENE + GRP + ["MODEL"]}
         rc = {v: k for k, v in COMPS.items()}
         rn = {v: k for k, v in NAMES.items()}
